@@ -14,7 +14,7 @@ PROPERTY = "C09"
 LEVEL = "exploration"
 RULE = (
     "generated streams of 1..n command/response pairs over all command codes with sessions, parameter encryption, failed "
-    "responses, the same code back to back with different configurations, streams ending after a command; per-file corpus "
+    "responses, the same code back to back with different configurations, streams ending after a command, one stream of 60 (thorough 3 x 400) pairs; per-file corpus "
     "streams; stream events must equal the concatenation of the individual decodes (response decoded with the preceding "
     "command's code and encryption request), every individual decode must equal the reference interpreter's, and events_to_objs (fed with a list, an iterator, the live stream decoder) must yield one equal object per message in order; warn mode: the same streams with some messages (the last one in 60 %) declared longer than their structure and padded accordingly must decode to the concatenation of the individual warn-mode decodes; distinct = "
     "distinct (sequence of (code, sessions, decrypt, encrypt, failure)) streams"
@@ -28,6 +28,8 @@ def plan(tier, seed):
     n = 8 if q else 16
     shards = [dict(name=f"gen{i}", kind="gen", n=12 if q else 140, max_pairs=6 if q else 10) for i in range(n)]
     shards.append(dict(name="carried-state", kind="carried", n=15 if q else 300))
+    # long streams: whatever a stream decode accumulates per message (regions, carried state, recursion) has time to show
+    shards.append(dict(name="long", kind="long", pairs=60 if q else 400, n=1 if q else 3))
     nc = 4 if q else 8
     shards += [dict(name=f"corpus{i}", kind="corpus", start=i, step=nc * (6 if q else 1)) for i in range(nc)]
     return shards
@@ -177,6 +179,11 @@ def run_shard(shard, rec):
             for case, _msgs in cases.carried_state_streams(rng, shard["n"]):
                 check_stream(case, rec)
                 rec.count("carried_state_streams")
+        elif shard["kind"] == "long":
+            for case, msgs in cases.stream_cases(rng, shard["n"], exactly=shard["pairs"]):
+                check_stream(case, rec)
+                rec.count("long_streams")
+                rec.count("long_stream_messages", len(msgs))
         elif shard["kind"] == "gen":
             for case, msgs in cases.stream_cases(rng, shard["n"], max_pairs=shard["max_pairs"], big=shard.get("tier") == "thorough"):
                 check_stream(case, rec)
@@ -190,7 +197,7 @@ def run_shard(shard, rec):
 
 def finish(m, tier):
     inc = probes.missing(m, ANCHORS)
-    for k in ("responses_enc", "responses_plain", "objects_compared", "carried_state_streams", "padded_streams_last_message", "rooted_streams", "object_feeds_compared"):
+    for k in ("responses_enc", "responses_plain", "objects_compared", "carried_state_streams", "long_streams", "padded_streams_last_message", "rooted_streams", "object_feeds_compared"):
         if not m["counters"].get(k):
             inc.append(f"no case of {k}")
     return dict(inconclusive=inc)
